@@ -7,6 +7,7 @@ package main
 import (
 	"fmt"
 	"reflect"
+	"runtime/debug"
 	"strings"
 	"time"
 
@@ -283,6 +284,7 @@ func collectNodes(n *yaml.Node, seen map[*yaml.Node]bool, out *[]*yaml.Node) {
 }
 
 func runC07(c *ctx) error {
+	debug.SetMaxStack(256 << 20) // a runaway recursion dies quickly instead of after 1 GB of stack
 	const nShard = 8
 	var shards []*core.Session
 	for i := 0; i < nShard; i++ {
@@ -317,7 +319,7 @@ func runC07(c *ctx) error {
 					seqs = append(seqs, x)
 				}
 			}
-			switch rng.Intn(4) {
+			switch rng.Intn(6) {
 			case 0: // an alias pointing at an ancestor-or-other mapping (value cycle or not)
 				if len(aliases) > 0 && len(maps) > 0 {
 					core.Pick(rng, aliases).Alias = core.Pick(rng, maps)
@@ -341,11 +343,37 @@ func runC07(c *ctx) error {
 					m.Content = append(m.Content, &yaml.Node{Kind: yaml.ScalarNode, Tag: "!!str", Value: "self"}, m)
 					surgery = "self-value"
 				}
+			case 4: // a merge key whose value is a sequence that (directly or one level down) contains itself,
+				// as `<<: &x [*x]` / `<<: &y [[*y]]` / `<<: &z [*m, *z]` give (yaml.v3 accepts these texts)
+				if len(maps) > 0 {
+					m := core.Pick(rng, maps)
+					sq := &yaml.Node{Kind: yaml.SequenceNode, Tag: "!!seq", Anchor: "zs", Style: yaml.FlowStyle}
+					self := &yaml.Node{Kind: yaml.AliasNode, Alias: sq, Value: "zs"}
+					switch rng.Intn(3) {
+					case 0:
+						sq.Content = []*yaml.Node{self}
+					case 1:
+						sq.Content = []*yaml.Node{{Kind: yaml.SequenceNode, Tag: "!!seq", Style: yaml.FlowStyle, Content: []*yaml.Node{self}}}
+					default:
+						sq.Content = []*yaml.Node{core.Pick(rng, maps), self}
+					}
+					m.Content = append(m.Content, &yaml.Node{Kind: yaml.ScalarNode, Tag: "!!merge", Value: "<<"}, sq)
+					surgery = "merge-sequence-self"
+				}
+			case 5: // a sequence that contains itself as a value (not under a merge key)
+				if len(seqs) > 0 {
+					sq := core.Pick(rng, seqs)
+					sq.Content = append(sq.Content, &yaml.Node{Kind: yaml.AliasNode, Alias: sq, Value: "zq"})
+					surgery = "sequence-self-value"
+				}
 			}
 		}
 		store, rootID := storeVL(&root)
-		res, finished := decodeWithTimeout(&root, 5*time.Second)
 		desc := map[string]any{"document": src, "surgery": surgery}
+		if surgery != "" {
+			core.Current(map[string]any{"property": "C07", "what": "ordered.DecodeYAML on this node graph", "input": desc})
+		}
+		res, finished := decodeWithTimeout(&root, 5*time.Second)
 		if !finished {
 			c.res.Fail(core.OracleFailure{What: "DecodeYAML did not return within 5s", Input: desc})
 			continue
